@@ -120,6 +120,11 @@ def op_solver_cli(c):
         else:
             with open(path, "w") as f:
                 f.write(c["text"])
+        for rel, text in (c.get("decoys") or {}).items():
+            # other files lying around in the working directory (e.g. one of the same name under inputs/): not what -f names
+            os.makedirs(os.path.dirname(os.path.join(d, rel)) or d, exist_ok=True)
+            with open(os.path.join(d, rel), "w") as f:
+                f.write(text)
         env = dict(os.environ, PYTHONPATH=REPO, PYTHONHASHSEED="0", PYTHONDONTWRITEBYTECODE="1")
         p = subprocess.run([sys.executable, os.path.join(REPO, "conditionalrewards.py")] + list(c["argv"]),
                            cwd=d, env=env, stdout=subprocess.PIPE, stderr=subprocess.PIPE, text=True)
@@ -127,6 +132,30 @@ def op_solver_cli(c):
         for fn in sorted(os.listdir(os.path.join(d, "outputs"))):
             outs[fn] = open(os.path.join(d, "outputs", fn)).read()
         return {"rc": p.returncode, "stderr": p.stderr[-600:], "outputs": outs}
+    finally:
+        shutil.rmtree(d, ignore_errors=True)
+
+
+def op_read_twice(c):
+    """read_dict_from_file on one path twice in one process; in between the file is replaced by ANOTHER text of the same length and
+    its modification time is put back (a timestamp-preserving copy): the second read is about the file as it is then"""
+    import conditionalrewards as cr
+    d = _scratch()
+    try:
+        p = os.path.join(d, "inputs", "same_path.py")
+        with open(p, "w") as f:
+            f.write(c["first"])
+        st = os.stat(p)
+        r1 = cr.read_dict_from_file(p)
+        with open(p, "w") as f:
+            f.write(c["second"])
+        os.utime(p, ns=(st.st_atime_ns, st.st_mtime_ns))
+        r2 = cr.read_dict_from_file(p)
+        return {"first": enc(r1), "ok": enc(r2)}
+    except BaseException as e:   # noqa: BLE001
+        if type(e).__name__ == "CaseTimeout":
+            raise
+        return {"exc": type(e).__name__, "msg": str(e)[:300]}
     finally:
         shutil.rmtree(d, ignore_errors=True)
 
@@ -153,5 +182,5 @@ def op_read_dict(c):
         return {"exc": type(e).__name__, "msg": str(e)[:300]}
 
 
-OPS = {"gen_cli": op_gen_cli, "gen_main_seq": op_gen_main_seq, "api_text": op_api_text, "manual_name": op_manual_name, "solver_cli": op_solver_cli,
+OPS = {"read_twice": op_read_twice, "gen_cli": op_gen_cli, "gen_main_seq": op_gen_main_seq, "api_text": op_api_text, "manual_name": op_manual_name, "solver_cli": op_solver_cli,
        "read_dict": op_read_dict}
